@@ -65,6 +65,61 @@ def month_straddle(txs):
     return any((b - a).days <= 3 and (a.month != b.month) for a, b in zip(ds, ds[1:]))
 
 
+def judge_model(txs, o, conv, cnt, sets, hashes):
+    """One foreign-currency ledger against the exact model run on independently converted amounts."""
+    viols = []
+    case = {"op": "calc", "txs": txs, "fx": "bundled"}
+    try:
+        model = hmrc.evaluate(txs, conv)
+    except fxm.MissingRate as e:
+        cnt["ledgers_needing_a_missing_rate"] += 1
+        if "err" not in o or o["err"]["kind"] != "MissingFxRate":
+            viols.append({"clause": "missing-rate-not-reported", "signature": "missing-rate-not-reported",
+                          "detail": f"model needs {e}; tool: {str(o)[:200]}", "case": case})
+        return viols
+    if "err" in o and o["err"]["kind"] == "MissingFxRate":
+        viols.append({"clause": "rate-reported-missing-but-present", "signature": "rate-reported-missing-but-present",
+                      "detail": o["err"]["message"], "case": case})
+        return viols
+    if "ok" not in o or model["uncovered"]:
+        cnt["rejected_for_other_reasons"] += 1
+        return viols
+    foreign_fields(txs, cnt, sets)
+    if month_straddle(txs):
+        cnt["ledgers_straddling_a_month_end"] += 1
+    hashes.add(sha(txs)[:16])
+    rep = lc.parse_report(o["ok"]["report"])
+    capital = lc.has_kind(txs, "CAPRETURN", "ACCUMULATION")
+    tool = {(d["date"], d["ticker"]): d for d in lc.all_disposals(rep)}
+    for tk, r in model["ident"].items():
+        for w in r["disposals"]:
+            t = tool.get((w["date"], tk))
+            if t is None:
+                viols.append({"clause": "disposal-missing", "signature": "disposal-missing", "detail": f"{tk} {w['date']}", "case": case})
+                continue
+            cnt["disposals_compared"] += 1
+            bad = []
+            if not lc.close(t["gross"], w["gross"], TOL_10DP, w["gross"]):
+                bad.append(f"gross {float(t['gross'])!r} vs {float(w['gross'])!r}")
+            if not lc.close(t["net"], w["net"], TOL_10DP, w["net"]):
+                bad.append(f"net {float(t['net'])!r} vs {float(w['net'])!r}")
+            if not capital:
+                tc = sum((l["cost"] for l in t["legs"]), ZERO)
+                if not lc.close(tc, w["cost"], TOL_FINE * 10 ** 4, w["cost"] * 10 ** 3):
+                    bad.append(f"cost {float(tc)!r} vs {float(w['cost'])!r}")
+            if bad:
+                viols.append({"clause": "converted-figures-differ", "signature": "converted-figures-differ",
+                              "detail": f"{tk} {w['date']}: " + "; ".join(bad), "case": case})
+    # dividends
+    for y in rep["years"]:
+        inc, tax = model["dividends"].get(y["start_year"], (ZERO, ZERO))
+        if not lc.close(y["dividend_income"], inc, TOL_FINE * 1000, inc) or not lc.close(y["dividend_tax_paid"], tax, TOL_FINE * 1000, tax):
+            viols.append({"clause": "converted-dividends-differ", "signature": "converted-dividends-differ",
+                          "detail": f"{y['period']}: {float(y['dividend_income'])!r} vs {float(inc)!r}", "case": case})
+
+    return viols
+
+
 def run_model(desc):
     """Foreign ledger vs the exact model run on amounts converted by the independent rate table."""
     rng = rng_for(PROP, desc["seed"], "model", desc["shard"])
@@ -79,58 +134,37 @@ def run_model(desc):
     cases = [gen_ledger(rng, fx_opts(rng, codes))[0] for _ in range(desc["n"])]
     obs = probe().run([lc.calc_case(t, fx="bundled") for t in cases])
     for txs, o in zip(cases, obs):
-        case = {"op": "calc", "txs": txs, "fx": "bundled"}
-        try:
-            model = hmrc.evaluate(txs, conv)
-        except fxm.MissingRate as e:
-            cnt["ledgers_needing_a_missing_rate"] += 1
-            if "err" not in o or o["err"]["kind"] != "MissingFxRate":
-                viols.append({"clause": "missing-rate-not-reported", "signature": "missing-rate-not-reported",
-                              "detail": f"model needs {e}; tool: {str(o)[:200]}", "case": case})
-            continue
-        if "err" in o and o["err"]["kind"] == "MissingFxRate":
-            viols.append({"clause": "rate-reported-missing-but-present", "signature": "rate-reported-missing-but-present",
-                          "detail": o["err"]["message"], "case": case})
-            continue
-        if "ok" not in o or model["uncovered"]:
-            cnt["rejected_for_other_reasons"] += 1
-            continue
-        foreign_fields(txs, cnt, sets)
-        if month_straddle(txs):
-            cnt["ledgers_straddling_a_month_end"] += 1
-        hashes.add(sha(txs)[:16])
-        rep = lc.parse_report(o["ok"]["report"])
-        capital = lc.has_kind(txs, "CAPRETURN", "ACCUMULATION")
-        tool = {(d["date"], d["ticker"]): d for d in lc.all_disposals(rep)}
-        for tk, r in model["ident"].items():
-            for w in r["disposals"]:
-                t = tool.get((w["date"], tk))
-                if t is None:
-                    viols.append({"clause": "disposal-missing", "signature": "disposal-missing", "detail": f"{tk} {w['date']}", "case": case})
-                    continue
-                cnt["disposals_compared"] += 1
-                bad = []
-                if not lc.close(t["gross"], w["gross"], TOL_10DP, w["gross"]):
-                    bad.append(f"gross {float(t['gross'])!r} vs {float(w['gross'])!r}")
-                if not lc.close(t["net"], w["net"], TOL_10DP, w["net"]):
-                    bad.append(f"net {float(t['net'])!r} vs {float(w['net'])!r}")
-                if not capital:
-                    tc = sum((l["cost"] for l in t["legs"]), ZERO)
-                    if not lc.close(tc, w["cost"], TOL_FINE * 10 ** 4, w["cost"] * 10 ** 3):
-                        bad.append(f"cost {float(tc)!r} vs {float(w['cost'])!r}")
-                if bad:
-                    viols.append({"clause": "converted-figures-differ", "signature": "converted-figures-differ",
-                                  "detail": f"{tk} {w['date']}: " + "; ".join(bad), "case": case})
-        # dividends
-        for y in rep["years"]:
-            inc, tax = model["dividends"].get(y["start_year"], (ZERO, ZERO))
-            if not lc.close(y["dividend_income"], inc, TOL_FINE * 1000, inc) or not lc.close(y["dividend_tax_paid"], tax, TOL_FINE * 1000, tax):
-                viols.append({"clause": "converted-dividends-differ", "signature": "converted-dividends-differ",
-                              "detail": f"{y['period']}: {float(y['dividend_income'])!r} vs {float(inc)!r}", "case": case})
+        viols += judge_model(txs, o, conv, cnt, sets, hashes)
         if len(samples) < 1 and len(txs) <= 8:
             samples.append({"ledger": lc.brief(txs)})
     return {"evaluations": len(cases), "nontrivial_hashes": hashes, "counters": cnt, "violations": cap_viols(viols),
             "samples": samples, "sets": sets}
+
+
+def judge_twin(base, foreign, og, of, on, cnt, hashes):
+    """A foreign-currency ledger against its literally pre-converted GBP twin (and the twin with no rate table)."""
+    viols = []
+    case = {"op": "twin", "txs": foreign, "gbp_twin": base}
+    cnt["twins"] += 1
+    if ("ok" in og) != ("ok" in of):
+        viols.append({"clause": "twin-acceptance-differs", "signature": "twin-acceptance-differs",
+                      "detail": f"GBP: {str(og.get('err'))[:120]} foreign: {str(of.get('err'))[:120]}", "case": case})
+        return viols
+    # GBP ledger: identical with and without a rate table ("GBP amounts are used unchanged")
+    if ("ok" in og) != ("ok" in on) or ("ok" in og and og["ok"]["report"]["tax_years"] != on["ok"]["report"]["tax_years"]):
+        viols.append({"clause": "gbp-ledger-changed-by-rate-table", "signature": "gbp-ledger-changed-by-rate-table",
+                      "detail": "GBP-only ledger differs between fx=bundled and fx=none", "case": case})
+    if "ok" not in og:
+        return viols
+    hashes.add(sha(foreign)[:16])
+    A, B = lc.parse_report(og["ok"]["report"]), lc.parse_report(of["ok"]["report"])
+    diffs = lc.compare_reports(A, B, exact=False, leg_gains=True, label=("gbp", "foreign"))
+    if diffs:
+        viols.append({"clause": "foreign-ledger-differs-from-preconverted-twin",
+                      "signature": "foreign-ledger-differs-from-preconverted-twin",
+                      "detail": "; ".join(diffs[:3]), "case": case})
+
+    return viols
 
 
 def run_twin(desc):
@@ -174,26 +208,9 @@ def run_twin(desc):
     obs = probe().run(reqs)
     for i, (base, foreign) in enumerate(meta):
         og, of, on = obs[3 * i], obs[3 * i + 1], obs[3 * i + 2]
-        case = {"op": "twin", "txs": foreign, "gbp_twin": base}
-        cnt["twins"] += 1
-        if ("ok" in og) != ("ok" in of):
-            viols.append({"clause": "twin-acceptance-differs", "signature": "twin-acceptance-differs",
-                          "detail": f"GBP: {str(og.get('err'))[:120]} foreign: {str(of.get('err'))[:120]}", "case": case})
-            continue
-        # GBP ledger: identical with and without a rate table ("GBP amounts are used unchanged")
-        if ("ok" in og) != ("ok" in on) or ("ok" in og and og["ok"]["report"]["tax_years"] != on["ok"]["report"]["tax_years"]):
-            viols.append({"clause": "gbp-ledger-changed-by-rate-table", "signature": "gbp-ledger-changed-by-rate-table",
-                          "detail": "GBP-only ledger differs between fx=bundled and fx=none", "case": case})
-        if "ok" not in og:
-            continue
-        hashes.add(sha(foreign)[:16])
-        A, B = lc.parse_report(og["ok"]["report"]), lc.parse_report(of["ok"]["report"])
-        diffs = lc.compare_reports(A, B, exact=False, leg_gains=True, label=("gbp", "foreign"))
-        if diffs:
-            viols.append({"clause": "foreign-ledger-differs-from-preconverted-twin",
-                          "signature": "foreign-ledger-differs-from-preconverted-twin",
-                          "detail": "; ".join(diffs[:3]), "case": case})
-        elif len(samples) < 1 and len(base) <= 6:
+        vs_ = judge_twin(base, foreign, og, of, on, cnt, hashes)
+        viols += vs_
+        if not vs_ and "ok" in og and len(samples) < 1 and len(base) <= 6:
             samples.append({"foreign": lc.brief(foreign), "gbp_twin": lc.brief(base)})
     return {"evaluations": len(reqs), "nontrivial_hashes": hashes, "counters": cnt, "violations": cap_viols(viols), "samples": samples}
 
@@ -551,10 +568,18 @@ def run_shard(desc):
 
 
 def replay(case):
+    if case.get("op") == "calc" and case.get("fx") == "bundled":
+        o = probe().one(lc.calc_case(case["txs"], fx="bundled"))
+        conv = fxm.converter(fxm.Table(known_codes()))
+        return judge_model(case["txs"], o, conv, Counter(), {}, set()), o
+    if case.get("op") == "twin":
+        og, of, on = probe().run([lc.calc_case(case["gbp_twin"], fx="bundled"), lc.calc_case(case["txs"], fx="bundled"),
+                                  lc.calc_case(case["gbp_twin"])])
+        return judge_twin(case["gbp_twin"], case["txs"], og, of, on, Counter(), set()), {"gbp": og, "foreign": of}
     if case.get("op") == "calc":
         o = probe().one(lc.calc_case(case["txs"], fx=case.get("fx")))
-        return [], o
-    return [], {"note": "see case body"}
+        return [], dict(o, note="rate-folder / no-table cases: re-run the shard")
+    return [], {"note": "rate-folder, CLI and MCP cases: re-run the shard"}
 
 
 def finalize(total, tier, seed):
